@@ -30,6 +30,10 @@ def load_json(path, default):
 def finding_matches(f, prop, kind, **kw):
     if f.get("property") != prop or f.get("kind") != kind:
         return False
+    if "cases" in f and "case" in kw and "case" not in f:
+        # explicit list of scenario ids of ONE defect (exact match)
+        if kw["case"] not in f["cases"]:
+            return False
     for k, v in kw.items():
         pat = f.get(k)
         if pat is None:
@@ -182,8 +186,13 @@ def main(argv=None):
             violations.append((p, suffix, full))
 
     # ------------------------------------------------------------------ report
+    grouped = {}
     for kf, what in known_hits:
-        print(f"KNOWN-FINDING: property={prop} {kf.get('what', what)} [{what}]")
+        grouped.setdefault(id(kf), (kf, []))[1].append(what)
+    for kf, whats in grouped.values():
+        whats = sorted(set(whats))
+        shown = ", ".join(whats[:4]) + (f", ... {len(whats)} listed scenarios" if len(whats) > 4 else "")
+        print(f"KNOWN-FINDING: property={prop} {kf.get('what', shown)} [{shown}]")
     seen = set()
     for p, suffix, _ in violations:
         if p in seen:
